@@ -268,7 +268,16 @@ def run_shard(spec, ctx):
             judge(["nosuchmodule"], None)
             judge(None, ["nosuchmodule"])
             judge(["shell", "nosuchmodule"], ["ell", "power"])
-            # through build_registry as well
+            # through build_registry as well, incl. include lists lying entirely inside the exclude list
+            for inc, exc in [([m], [m]) for m in mods] + [(mods[:2], mods[:3]), (mods[:3], mods[:2]), ([mods[0]], mods), (mods, [mods[0]])]:
+                case2 = {"kind": "inex", "include": inc, "exclude": exc, "via": "build_registry"}
+                if not ctx.begin(case2):
+                    continue
+                ctx.evaluated()
+                ctx.count("include_exclude_configs")
+                _, ans2 = split_registry(regmod.build_registry(include=list(inc), exclude=list(exc)))
+                sel2 = [m for m in mods if m in inc and m not in exc]
+                check_analyzers(ans2, [(m, f) for m in sel2 for f in astmap[m]], reporter(case2), f"build_registry(include={inc}, exclude={exc})")
             reg = regmod.build_registry(include=["shell"], exclude=None)
             _, ans = split_registry(reg)
             check_analyzers(ans, [("shell", f) for f in astmap["shell"]], reporter({"kind": "inex", "include": ["shell"], "exclude": None}),
